@@ -248,3 +248,1238 @@ example : clampStep 5 (-(2^63)) (2^63 - 1) (2^62) = some (0, 1) := by decide
 example : clampStep 5 (2^63 - 1) (-(2^63)) (-(2^63)) = some (4, 1) := by decide
 example : clampStep 5 (2^63 - 1) (-(2^63)) (-1) = some (4, 5) := by decide
 example : clamp1 5 (-(2^63)) (2^63 - 1) = some (0, 5) := by decide
+
+/-! ## 3. The rune walkers stop at the end of the string: `walk_skips_bounded` -/
+
+theorem runeCount_eq_zero (s : Bytes) (h : runeCount s = 0) : s = [] := by
+  by_cases hne : s = []
+  · exact hne
+  · have := runeCount_pos s hne; omega
+
+theorem runeCount_dropRunes : ∀ (k : Nat) (s : Bytes), runeCount (dropRunes k s) = runeCount s - k := by
+  intro k
+  induction k with
+  | zero => intro s; rfl
+  | succ k ih =>
+    intro s
+    by_cases hne : s = []
+    · subst hne; rw [Utf8.dropRunes_nil, runeCount_nil]; omega
+    · rw [Utf8.dropRunes_succ _ _ hne, ih, runeCount_step s hne]; omega
+
+/-- once `k` reaches the number of code points the string is exhausted -/
+theorem dropRunes_all : ∀ (k : Nat) (s : Bytes), runeCount s ≤ k → dropRunes k s = [] := by
+  intro k
+  induction k with
+  | zero => intro s h; exact runeCount_eq_zero s (by omega)
+  | succ k ih =>
+    intro s h
+    by_cases hne : s = []
+    · subst hne; rfl
+    · rw [Utf8.dropRunes_succ _ _ hne]
+      apply ih
+      rw [runeCount_step s hne] at h; omega
+
+/-- `dropRunes k` costs and does the same as `dropRunes (min k (runeCount s))`: a step of 2^62 costs no more than
+    the remaining length -/
+theorem dropRunes_clamp (k : Nat) (s : Bytes) : dropRunes k s = dropRunes (min k (runeCount s)) s := by
+  by_cases h : k ≤ runeCount s
+  · rw [Nat.min_eq_left h]
+  · rw [Nat.min_eq_right (by omega), dropRunes_all k s (by omega), dropRunes_all _ s (Nat.le_refl _)]
+
+theorem dropRunesTicks_nil (k : Nat) : dropRunesTicks k [] = 0 := by cases k <;> rfl
+theorem dropRunesTicks_succ (k : Nat) (s : Bytes) (h : s ≠ []) :
+    dropRunesTicks (k + 1) s = 1 + dropRunesTicks k (s.drop (decodeRune s).2) := by
+  cases s with
+  | nil => exact absurd rfl h
+  | cons b bs => rfl
+
+/-- the skipping loop performs exactly `min k (runeCount s)` iterations -/
+theorem dropRunesTicks_eq : ∀ (k : Nat) (s : Bytes), dropRunesTicks k s = min k (runeCount s) := by
+  intro k
+  induction k with
+  | zero => intro s; simp [dropRunesTicks]
+  | succ k ih =>
+    intro s
+    by_cases hne : s = []
+    · subst hne; rw [dropRunesTicks_nil, runeCount_nil]; simp
+    · rw [dropRunesTicks_succ _ _ hne, ih, runeCount_step s hne]; omega
+
+example : dropRunes (2 ^ 62) [0x61, 0x62, 0x63] = dropRunes 3 [0x61, 0x62, 0x63] := by
+  rw [dropRunes_clamp]; rfl
+example : dropRunesTicks (2 ^ 62) [0x61, 0x62, 0x63] = 3 := by rw [dropRunesTicks_eq]; decide
+
+/-! ### backwards -/
+
+theorem backCountAux_nil (f : Nat) : backCountAux f [] = 0 := by cases f <;> rfl
+theorem backCountAux_succ (f : Nat) (s : Bytes) (h : s ≠ []) :
+    backCountAux (f + 1) s = 1 + backCountAux f (s.take (s.length - (decodeLastRune s).2)) := by
+  cases s with
+  | nil => exact absurd rfl h
+  | cons b bs => rfl
+
+theorem backCountAux_fuel : ∀ (f1 f2 : Nat) (s : Bytes), s.length ≤ f1 → s.length ≤ f2 →
+    backCountAux f1 s = backCountAux f2 s := by
+  intro f1
+  induction f1 with
+  | zero =>
+    intro f2 s h1 _
+    have : s = [] := List.eq_nil_of_length_eq_zero (by omega)
+    subst this; rw [backCountAux_nil, backCountAux_nil]
+  | succ f1 ih =>
+    intro f2 s h1 h2
+    by_cases hne : s = []
+    · subst hne; rw [backCountAux_nil, backCountAux_nil]
+    · have hp := decodeLastRune_pos s hne
+      have hl := length_pos_of_ne_nil hne
+      match f2, h2 with
+      | 0, h2 => omega
+      | f2 + 1, h2 =>
+        rw [backCountAux_succ _ _ hne, backCountAux_succ _ _ hne]
+        congr 1
+        apply ih <;> (rw [List.length_take]; omega)
+
+theorem backCount_nil : backCount [] = 0 := rfl
+
+theorem backCount_step (s : Bytes) (h : s ≠ []) :
+    backCount s = 1 + backCount (s.take (s.length - (decodeLastRune s).2)) := by
+  have hp := decodeLastRune_pos s h
+  have hl := length_pos_of_ne_nil h
+  unfold backCount
+  obtain ⟨k, hk⟩ : ∃ k, s.length = k + 1 := ⟨s.length - 1, by omega⟩
+  rw [hk, backCountAux_succ _ _ h, ← hk,
+    backCountAux_fuel k (s.take (s.length - (decodeLastRune s).2)).length _
+      (by rw [List.length_take]; omega) (Nat.le_refl _)]
+
+theorem backCount_pos (s : Bytes) (h : s ≠ []) : 1 ≤ backCount s := by
+  rw [backCount_step s h]; omega
+
+theorem backCount_eq_zero (s : Bytes) (h : backCount s = 0) : s = [] := by
+  by_cases hne : s = []
+  · exact hne
+  · have := backCount_pos s hne; omega
+
+theorem backCount_le_length : ∀ (k : Nat) (s : Bytes), s.length ≤ k → backCount s ≤ s.length := by
+  intro k
+  induction k with
+  | zero => intro s h; have : s = [] := List.eq_nil_of_length_eq_zero (by omega); subst this; simp [backCount_nil]
+  | succ k ih =>
+    intro s h
+    by_cases hne : s = []
+    · subst hne; simp [backCount_nil]
+    · have hp := decodeLastRune_pos s hne
+      have hl := decodeLastRune_le s
+      rw [backCount_step s hne]
+      have := ih (s.take (s.length - (decodeLastRune s).2)) (by rw [List.length_take]; omega)
+      rw [List.length_take] at this
+      omega
+
+/-- on valid UTF-8 counting from the back gives the number of code points -/
+theorem backCount_encodeAll : ∀ rs : List Nat, Utf8.Scalars rs → backCount (encodeAll rs.reverse) = rs.length := by
+  intro rs
+  induction rs with
+  | nil => intro _; rfl
+  | cons c rs ih =>
+    intro h
+    rw [backCount_step _ (Utf8.encodeAll_reverse_cons_ne_nil c rs), Utf8.decodeLastRune_snoc c rs h.head]
+    simp only [Utf8.take_snoc]
+    rw [ih h.tail, List.length_cons]; omega
+
+theorem backCount_valid (cs : List Nat) (h : Utf8.Scalars cs) : backCount (encodeAll cs) = runeCount (encodeAll cs) := by
+  have := backCount_encodeAll cs.reverse h.reverse
+  rw [List.reverse_reverse] at this
+  rw [this, Utf8.runeCount_encodeAll cs h, List.length_reverse]
+
+theorem backCount_dropLastRunes : ∀ (k : Nat) (s : Bytes), backCount (dropLastRunes k s) = backCount s - k := by
+  intro k
+  induction k with
+  | zero => intro s; rfl
+  | succ k ih =>
+    intro s
+    by_cases hne : s = []
+    · subst hne; rw [Utf8.dropLastRunes_nil, backCount_nil]; omega
+    · rw [Utf8.dropLastRunes_succ _ _ hne, ih, backCount_step s hne]; omega
+
+theorem dropLastRunes_all : ∀ (k : Nat) (s : Bytes), backCount s ≤ k → dropLastRunes k s = [] := by
+  intro k
+  induction k with
+  | zero => intro s h; exact backCount_eq_zero s (by omega)
+  | succ k ih =>
+    intro s h
+    by_cases hne : s = []
+    · subst hne; rfl
+    · rw [Utf8.dropLastRunes_succ _ _ hne]
+      apply ih
+      rw [backCount_step s hne] at h; omega
+
+theorem dropLastRunes_clamp (k : Nat) (s : Bytes) :
+    dropLastRunes k s = dropLastRunes (min k (backCount s)) s := by
+  by_cases h : k ≤ backCount s
+  · rw [Nat.min_eq_left h]
+  · rw [Nat.min_eq_right (by omega), dropLastRunes_all k s (by omega), dropLastRunes_all _ s (Nat.le_refl _)]
+
+theorem dropLastRunesTicks_nil (k : Nat) : dropLastRunesTicks k [] = 0 := by cases k <;> rfl
+theorem dropLastRunesTicks_succ (k : Nat) (s : Bytes) (h : s ≠ []) :
+    dropLastRunesTicks (k + 1) s = 1 + dropLastRunesTicks k (s.take (s.length - (decodeLastRune s).2)) := by
+  cases s with
+  | nil => exact absurd rfl h
+  | cons b bs => rfl
+
+theorem dropLastRunesTicks_eq : ∀ (k : Nat) (s : Bytes), dropLastRunesTicks k s = min k (backCount s) := by
+  intro k
+  induction k with
+  | zero => intro s; simp [dropLastRunesTicks]
+  | succ k ih =>
+    intro s
+    by_cases hne : s = []
+    · subst hne; rw [dropLastRunesTicks_nil, backCount_nil]; simp
+    · rw [dropLastRunesTicks_succ _ _ hne, ih, backCount_step s hne]; omega
+
+example : dropLastRunes (2 ^ 63) [0x61, 0x62, 0x63] = dropLastRunes 3 [0x61, 0x62, 0x63] := by
+  rw [dropLastRunes_clamp]; rfl
+example : dropLastRunesTicks (2 ^ 63) [0x61, 0x62, 0x63] = 3 := by rw [dropLastRunesTicks_eq]; decide
+
+/-! ### the selecting loops -/
+
+theorem walkCost_le (step : Nat) : ∀ (c rem : Nat), walkCost step c rem ≤ c + rem := by
+  intro c
+  induction c with
+  | zero => intro rem; simp [walkCost]
+  | succ c ih =>
+    intro rem
+    have := ih (rem - 1 - min (step - 1) (rem - 1))
+    simp only [walkCost]
+    omega
+
+/-- the forward selecting loop on the actual string performs exactly `walkCost` decode steps -/
+theorem walkFwdTicks_eq (step : Nat) : ∀ (c : Nat) (s : Bytes),
+    walkFwdTicks step c s = walkCost step c (runeCount s) := by
+  intro c
+  induction c with
+  | zero => intro s; rfl
+  | succ c ih =>
+    intro s
+    simp only [walkFwdTicks, walkCost]
+    rw [ih, dropRunesTicks_eq, runeCount_dropRunes]
+    by_cases hne : s = []
+    · subst hne
+      have e : (decodeRune ([] : Bytes)).2 = 0 := rfl
+      rw [e, List.drop_zero, runeCount_nil]; simp
+    · rw [runeCount_step s hne]
+      have e1 : 1 + runeCount (s.drop (decodeRune s).2) - 1 = runeCount (s.drop (decodeRune s).2) := by omega
+      rw [e1]
+      have e2 : runeCount (s.drop (decodeRune s).2) - (step - 1)
+          = runeCount (s.drop (decodeRune s).2) - min (step - 1) (runeCount (s.drop (decodeRune s).2)) := by omega
+      rw [e2]
+
+theorem walkBwdTicks_eq (step : Nat) : ∀ (c : Nat) (s : Bytes),
+    walkBwdTicks step c s = walkCost step c (backCount s) := by
+  intro c
+  induction c with
+  | zero => intro s; rfl
+  | succ c ih =>
+    intro s
+    simp only [walkBwdTicks, walkCost]
+    rw [ih, dropLastRunesTicks_eq, backCount_dropLastRunes]
+    by_cases hne : s = []
+    · subst hne
+      have e : (decodeLastRune ([] : Bytes)).2 = 0 := rfl
+      rw [e]; simp [backCount_nil]
+    · rw [backCount_step s hne]
+      generalize backCount (s.take (s.length - (decodeLastRune s).2)) = r
+      have e1 : 1 + r - 1 = r := by omega
+      rw [e1]
+      have e2 : r - (step - 1) = r - min (step - 1) r := by omega
+      rw [e2]
+
+/-- a step of 2^62 on a three-letter string: one decode and two skips, not 2^62 -/
+example : walkFwdTicks (2 ^ 62) 1 [0x61, 0x62, 0x63] = 3 := by rw [walkFwdTicks_eq]; decide
+example : walkBwdTicks (2 ^ 63) 1 [0x61, 0x62, 0x63] = 3 := by
+  rw [walkBwdTicks_eq]
+  have : backCount [0x61, 0x62, 0x63] = 3 := by decide
+  rw [this]; decide
+
+/-! ### the offset conversion loop of `find_first` / `find_last` -/
+
+theorem runeOffset_nil (i : Nat) (acc : Nat) : runeOffset (i + 1) [] acc = none := rfl
+
+/-- asking for an offset beyond the end fails -/
+theorem runeOffset_none : ∀ (i : Nat) (s : Bytes) (acc : Nat), runeCount s < i → runeOffset i s acc = none := by
+  intro i
+  induction i with
+  | zero => intro s acc h; omega
+  | succ i ih =>
+    intro s acc h
+    by_cases hne : s = []
+    · subst hne; rfl
+    · rw [Utf8.runeOffset_succ _ _ _ hne]
+      apply ih
+      rw [runeCount_step s hne] at h; omega
+
+/-- … after at most `runeCount s + 1` recursion steps: the result for `i` is the result for `min i (runeCount s + 1)` -/
+theorem runeOffset_clamp (i : Nat) (s : Bytes) (acc : Nat) :
+    runeOffset i s acc = runeOffset (min i (runeCount s + 1)) s acc := by
+  by_cases h : i ≤ runeCount s + 1
+  · rw [Nat.min_eq_left h]
+  · rw [Nat.min_eq_right (by omega), runeOffset_none i s acc (by omega), runeOffset_none _ s acc (by omega)]
+
+theorem runeOffsetTicks_nil (i : Nat) : runeOffsetTicks (i + 1) [] = 1 := rfl
+theorem runeOffsetTicks_succ (i : Nat) (s : Bytes) (h : s ≠ []) :
+    runeOffsetTicks (i + 1) s = 1 + runeOffsetTicks i (s.drop (decodeRune s).2) := by
+  cases s with
+  | nil => exact absurd rfl h
+  | cons b bs => rfl
+
+theorem runeOffsetTicks_eq : ∀ (i : Nat) (s : Bytes), runeOffsetTicks i s = min i (runeCount s + 1) := by
+  intro i
+  induction i with
+  | zero => intro s; simp [runeOffsetTicks]
+  | succ i ih =>
+    intro s
+    by_cases hne : s = []
+    · subst hne; rw [runeOffsetTicks_nil, runeCount_nil]; omega
+    · rw [runeOffsetTicks_succ _ _ hne, ih, runeCount_step s hne]; omega
+
+example : runeOffset (2 ^ 62) [0x61, 0x62, 0x63] 0 = none := runeOffset_none _ _ _ (by decide)
+example : runeOffsetTicks (2 ^ 62) [0x61, 0x62, 0x63] = 4 := by rw [runeOffsetTicks_eq]; decide
+
+/-- item 3, collected -/
+theorem walk_skips_bounded (k : Nat) (s : Bytes) (acc : Nat) :
+    dropRunes k s = dropRunes (min k (runeCount s)) s ∧
+    dropRunesTicks k s = min k (runeCount s) ∧
+    dropLastRunes k s = dropLastRunes (min k (backCount s)) s ∧
+    dropLastRunesTicks k s = min k (backCount s) ∧
+    runeOffset k s acc = runeOffset (min k (runeCount s + 1)) s acc ∧
+    runeOffsetTicks k s = min k (runeCount s + 1) ∧
+    (runeCount s < k → runeOffset k s acc = none) ∧
+    runeCount s ≤ s.length ∧ backCount s ≤ s.length :=
+  ⟨dropRunes_clamp k s, dropRunesTicks_eq k s, dropLastRunes_clamp k s, dropLastRunesTicks_eq k s,
+   runeOffset_clamp k s acc, runeOffsetTicks_eq k s, runeOffset_none k s acc,
+   runeCount_le_length _ s (Nat.le_refl _), backCount_le_length _ s (Nat.le_refl _)⟩
+
+/-! ## 2. Every closed form is linear in the length, for all integer parameters -/
+
+/-- `slice`: an array costs one step; a string of `n` code points costs at most `2 n` decode steps
+    (`n` of them are the `RuneCountInString` pass), ∀ start stop : Int -/
+theorem slice_cost_bound (n : Int) (hn : 0 ≤ n) : ∀ start stop : Int,
+    sliceArrayCost n start stop = 1 ∧ sliceStringCost n start stop ≤ 2 * n.toNat := by
+  intro start stop
+  refine ⟨rfl, ?_⟩
+  unfold sliceStringCost
+  cases h : clamp1 n start stop with
+  | none => simp only; omega
+  | some p =>
+    obtain ⟨a, b⟩ := p
+    have := clamp1_bounds n start stop a b hn h
+    simp only; omega
+
+example : sliceStringCost 3 (-(2 ^ 63)) (2 ^ 63 - 1) = 6 := by decide
+example : sliceStringCost 3 (2 ^ 62) (2 ^ 63 - 1) = 3 := by decide
+
+theorem walkCost_total (n lead cnt step : Nat) (hl : lead ≤ n) :
+    lead + walkCost step cnt (n - lead) ≤ n + cnt := by
+  have := walkCost_le step cnt (n - lead); omega
+
+/-- `sliceStep`: ∀ start stop step : Int (zero, `2^63 - 1`, `-2^63` and values beyond 64 bits included) the copy loop
+    and the `make` are at most `n`, and the string branch performs at most `2 n` decode steps after the counting
+    pass, `4 n` ticks and cells in all -/
+theorem sliceStep_cost_bound (n : Int) (hn : 0 ≤ n) : ∀ start stop step : Int,
+    sliceStepArrayTicks n start stop step ≤ n.toNat ∧
+    sliceStepArrayCells n start stop step ≤ n.toNat ∧
+    sliceStepArrayCost n start stop step ≤ 2 * n.toNat ∧
+    sliceStepStringDecodes n start stop step ≤ 2 * n.toNat ∧
+    sliceStepStringCost n start stop step ≤ 4 * n.toNat := by
+  intro start stop step
+  have h1 : sliceStepArrayTicks n start stop step ≤ n.toNat := by
+    unfold sliceStepArrayTicks
+    cases h : clampStep n start stop step with
+    | none => simp only; omega
+    | some p =>
+      obtain ⟨a, cnt⟩ := p
+      have := clampStep_bounds n start stop step a cnt h
+      simp only; omega
+  have h2 : sliceStepStringDecodes n start stop step ≤ 2 * n.toNat := by
+    unfold sliceStepStringDecodes
+    cases h : clampStep n start stop step with
+    | none => simp only; omega
+    | some p =>
+      obtain ⟨a, cnt⟩ := p
+      have hb := clampStep_bounds n start stop step a cnt h
+      have hl : leadSkips n a step ≤ n.toNat := by unfold leadSkips; split <;> omega
+      have := walkCost_total n.toNat (leadSkips n a step) cnt.toNat step.natAbs hl
+      simp only; omega
+  unfold sliceStepArrayCost sliceStepStringCost sliceStepArrayCells sliceStepStringCells
+  omega
+
+example : sliceStepArrayCost 5 (-(2 ^ 63)) (2 ^ 63 - 1) (2 ^ 62) = 2 := by decide
+example : sliceStepArrayCost 5 (2 ^ 63 - 1) (-(2 ^ 63)) (-(2 ^ 63)) = 2 := by decide
+example : sliceStepStringCost 3 0 (2 ^ 63 - 1) (2 ^ 62) = 3 + 3 + 1 := by decide
+example : sliceStepStringCost 3 (2 ^ 63 - 1) (-(2 ^ 63)) (-(2 ^ 63)) = 3 + 3 + 1 := by decide
+
+/-! ### the closed forms are what the model does on the actual string -/
+
+theorem runesLenTicks_nil (k : Nat) : runesLenTicks k [] = 0 := by cases k <;> rfl
+theorem runesLenTicks_succ (k : Nat) (s : Bytes) (h : s ≠ []) :
+    runesLenTicks (k + 1) s = 1 + runesLenTicks k (s.drop (decodeRune s).2) := by
+  cases s with
+  | nil => exact absurd rfl h
+  | cons b bs => rfl
+
+theorem runesLenTicks_eq : ∀ (k : Nat) (s : Bytes), runesLenTicks k s = min k (runeCount s) := by
+  intro k
+  induction k with
+  | zero => intro s; simp [runesLenTicks]
+  | succ k ih =>
+    intro s
+    by_cases hne : s = []
+    · subst hne; rw [runesLenTicks_nil, runeCount_nil]; simp
+    · rw [runesLenTicks_succ _ _ hne, ih, runeCount_step s hne]; omega
+
+/-- the model's `slice` on `s` performs exactly the decode steps of the closed form -/
+theorem sliceStringTicks_eq (s : Bytes) (start stop : Int) :
+    runeCount s + sliceStringTicks s start stop = sliceStringCost (runeCount s) start stop := by
+  unfold sliceStringTicks sliceStringCost
+  cases h : clamp1 (runeCount s) start stop with
+  | none => simp
+  | some p =>
+    obtain ⟨a, b⟩ := p
+    have := clamp1_bounds _ start stop a b (by omega) h
+    simp only
+    rw [dropRunesTicks_eq, runesLenTicks_eq, runeCount_dropRunes]
+    omega
+
+/-- positive step: the model's `sliceStep` on `s` performs exactly the decode steps of the closed form -/
+theorem sliceStepStringTicks_fwd (s : Bytes) (start stop step : Int) (hp : step > 0) :
+    sliceStepStringTicks s start stop step = sliceStepStringDecodes (runeCount s) start stop step := by
+  unfold sliceStepStringTicks sliceStepStringDecodes
+  dsimp only
+  cases h : clampStep (runeCount s) start stop step with
+  | none => rfl
+  | some p =>
+    obtain ⟨a, cnt⟩ := p
+    have := clampStep_bounds _ start stop step a cnt h
+    simp only [hp, if_true, leadSkips]
+    rw [dropRunesTicks_eq, walkFwdTicks_eq, runeCount_dropRunes]
+    have e1 : step.toNat = step.natAbs := by omega
+    have e2 : min a.toNat (runeCount s) = a.toNat := by omega
+    have e3 : ((runeCount s : Nat) : Int).toNat = runeCount s := by omega
+    rw [e1, e2, e3]
+
+/-- negative step: the same when decoding from the back finds as many code points as decoding from the front
+    (always so on valid UTF-8, `backCount_valid`) -/
+theorem sliceStepStringTicks_bwd (s : Bytes) (start stop step : Int) (hp : ¬ step > 0)
+    (hv : backCount s = runeCount s) :
+    sliceStepStringTicks s start stop step = sliceStepStringDecodes (runeCount s) start stop step := by
+  unfold sliceStepStringTicks sliceStepStringDecodes
+  dsimp only
+  cases h : clampStep (runeCount s) start stop step with
+  | none => rfl
+  | some p =>
+    obtain ⟨a, cnt⟩ := p
+    have := clampStep_bounds _ start stop step a cnt h
+    simp only [hp, if_false, leadSkips]
+    rw [dropLastRunesTicks_eq, walkBwdTicks_eq, backCount_dropLastRunes, hv]
+    have e1 : (-step).toNat = step.natAbs := by omega
+    have e2 : min ((runeCount s : Int) - 1 - a).toNat (runeCount s) = ((runeCount s : Int) - 1 - a).toNat := by omega
+    have e3 : ((runeCount s : Nat) : Int).toNat = runeCount s := by omega
+    rw [e1, e2, e3]
+
+/-- whatever the bytes and the integers: at most `2·|s|` decode steps -/
+theorem sliceStepStringTicks_le (s : Bytes) : ∀ start stop step : Int,
+    sliceStepStringTicks s start stop step ≤ 2 * s.length := by
+  intro start stop step
+  have hr := runeCount_le_length _ s (Nat.le_refl _)
+  have hb := backCount_le_length _ s (Nat.le_refl _)
+  unfold sliceStepStringTicks
+  dsimp only
+  cases h : clampStep (runeCount s) start stop step with
+  | none => simp
+  | some p =>
+    obtain ⟨a, cnt⟩ := p
+    have := clampStep_bounds _ start stop step a cnt h
+    simp only
+    split
+    · rw [dropRunesTicks_eq, walkFwdTicks_eq, runeCount_dropRunes]
+      have := walkCost_le step.toNat cnt.toNat (runeCount s - a.toNat)
+      omega
+    · rw [dropLastRunesTicks_eq, walkBwdTicks_eq, backCount_dropLastRunes]
+      have := walkCost_le (-step).toNat cnt.toNat (backCount s - ((runeCount s : Int) - 1 - a).toNat)
+      omega
+
+/-- "héllo"[::2^62]: 6 bytes, 5 code points; one selected code point and four skips -/
+example : sliceStepStringTicks [0x68, 0xC3, 0xA9, 0x6C, 0x6C, 0x6F] 0 (2 ^ 63 - 1) (2 ^ 62) = 5 := by
+  rw [sliceStepStringTicks_fwd _ _ _ _ (by decide)]; decide
+
+/-! ### `find_first` / `find_last` -/
+
+theorem startOffsetTicks_eq (s : Bytes) (i : Int) :
+    startOffsetTicks s i = offsetTicks s.length (runeCount s) i := by
+  unfold startOffsetTicks offsetTicks; rw [runeOffsetTicks_eq]
+
+theorem finishOffsetTicks_eq (s : Bytes) (j : Int) :
+    finishOffsetTicks s j = offsetTicks s.length (runeCount s) j := by
+  unfold finishOffsetTicks offsetTicks; rw [runeOffsetTicks_eq]
+
+theorem offsetTicks_le (len n : Nat) (i : Int) : offsetTicks len n i ≤ n + 1 := by
+  unfold offsetTicks; split
+  · omega
+  · split <;> omega
+
+/-- the search window is a part of the subject -/
+theorem find_window_le (s : Bytes) (i j : Nat) : ((s.drop i).take (j - i)).length ≤ s.length := by
+  rw [List.length_take, List.length_drop]; omega
+
+/-- ∀ i j : Int, the offsets cost at most `n + 1` iterations each; the whole call is linear in the subject -/
+theorem find_cost_bound (len n : Nat) : ∀ i j : Int, findCost len n i j ≤ 2 * (n + 1) + 2 * len + 1 := by
+  intro i j
+  have := offsetTicks_le len n i
+  have := offsetTicks_le len n j
+  unfold findCost; omega
+
+example : findCost 3 3 (2 ^ 62) (2 ^ 63 - 1) = 7 := by decide
+example : findCost 3 3 (-(2 ^ 63)) 2 = 9 := by decide
+example : startOffsetTicks [0x61, 0x62, 0x63] 3 = 3 := by rw [startOffsetTicks_eq]; decide
+
+/-! ## 4. Memory: the size of the result never depends on the magnitude of an integer -/
+
+/-! ### arrays -/
+
+theorem pickStep_length (xs : List Val) (step : Int) : ∀ (k : Nat) (a : Int), (pickStep xs a step k).length = k := by
+  intro k
+  induction k with
+  | zero => intro a; rfl
+  | succ k ih => intro a; simp [pickStep, ih]
+
+/-- `slice` on an array of length `n`: at most `n` elements, ∀ start stop : Int -/
+theorem slice_array_size (t : ATag) (xs : List Val) : ∀ (start stop : Int) (r : Val),
+    slice (.arr t xs) start stop = .ok r → ∃ ys, r = .arr .plain ys ∧ ys.length ≤ xs.length := by
+  intro start stop r h
+  simp only [slice] at h
+  split at h
+  · cases h; exact ⟨[], rfl, by simp⟩
+  · split at h
+    · cases h; exact ⟨[], rfl, by simp⟩
+    · split at h
+      · cases h
+      · cases h; refine ⟨_, rfl, ?_⟩
+        rw [List.length_take, List.length_drop]; omega
+
+/-- `sliceStep` on an array of length `n`: at most `n` elements, ∀ start stop step : Int -/
+theorem sliceStep_array_size (t : ATag) (xs : List Val) : ∀ (start stop step : Int) (r : Val),
+    sliceStep (.arr t xs) start stop step = .ok r → ∃ ys, r = .arr .plain ys ∧ ys.length ≤ xs.length := by
+  intro start stop step r h
+  simp only [sliceStep] at h
+  split at h
+  · cases h; exact ⟨[], rfl, by simp⟩
+  · rename_i a cnt hc
+    have := clampStep_bounds _ start stop step a cnt hc
+    split at h
+    · cases h
+    · cases h; refine ⟨_, rfl, ?_⟩
+      rw [pickStep_length]; omega
+
+example : sliceStep (.arr .plain [.null, .bool true, .null]) (-(2 ^ 63)) (2 ^ 63 - 1) (2 ^ 62)
+    = .ok (.arr .plain [.null]) := by rfl
+example : sliceStep (.arr .plain [.null, .bool true, .null]) (2 ^ 63 - 1) (-(2 ^ 63)) (-(2 ^ 63))
+    = .ok (.arr .plain [.null]) := by rfl
+
+/-! ### strings -/
+
+theorem dropRunes_length_le : ∀ (k : Nat) (s : Bytes), (dropRunes k s).length ≤ s.length := by
+  intro k
+  induction k with
+  | zero => intro s; exact Nat.le_refl _
+  | succ k ih =>
+    intro s
+    by_cases hne : s = []
+    · subst hne; simp [dropRunes]
+    · rw [Utf8.dropRunes_succ _ _ hne]
+      have := ih (s.drop (decodeRune s).2)
+      rw [List.length_drop] at this; omega
+
+/-- `slice` on a string: the result is a piece of the subject, never longer (bytes, hence code points ≤ bytes) -/
+theorem slice_string_size (s : Bytes) : ∀ (start stop : Int) (r : Val),
+    slice (.str s) start stop = .ok r → ∃ b, r = .str b ∧ b.length ≤ s.length ∧ runeCount b ≤ s.length := by
+  intro start stop r h
+  simp only [slice] at h
+  split at h
+  · cases h; exact ⟨[], rfl, by simp, by simp [runeCount_nil]⟩
+  · cases h
+    refine ⟨_, rfl, ?_⟩
+    have h1 := dropRunes_length_le
+    rename_i a b _
+    have h1 := dropRunes_length_le a.toNat s
+    have h2 : (List.take (runesLen (b - a).toNat (dropRunes a.toNat s)) (dropRunes a.toNat s)).length ≤ s.length := by
+      rw [List.length_take]; omega
+    exact ⟨h2, Nat.le_trans (runeCount_le_length _ _ (Nat.le_refl _)) h2⟩
+
+/-- … and on valid UTF-8 it is the code points `a … b-1`: at most as many code points as the subject -/
+theorem slice_string_codepoints (cs : List Nat) (hcs : Utf8.Scalars cs) : ∀ (start stop : Int) (r : Val),
+    slice (.str (encodeAll cs)) start stop = .ok r → ∃ b, r = .str b ∧ runeCount b ≤ cs.length := by
+  intro start stop r h
+  simp only [slice] at h
+  split at h
+  · cases h; exact ⟨[], rfl, by simp [runeCount_nil]⟩
+  · cases h
+    refine ⟨_, rfl, ?_⟩
+    rw [Utf8.dropRunes_encodeAll _ cs hcs, Utf8.take_runesLen_encodeAll _ _ (hcs.drop _),
+      Utf8.runeCount_encodeAll _ ((hcs.drop _).take _), List.length_take, List.length_drop]
+    omega
+
+/-- a decoded rune re-encodes like a scalar value (invalid input becomes U+FFFD) -/
+def fixRune (r : Nat) : Nat := if isScalar r then r else RuneError
+
+theorem fixRune_scalar (r : Nat) : isScalar (fixRune r) = true := by
+  unfold fixRune; split
+  · assumption
+  · exact Utf8.isScalar_runeError
+
+theorem encodeRune_fix (r : Nat) : encodeRune (fixRune r) = encodeRune r := by
+  unfold fixRune
+  by_cases h : isScalar r = true
+  · simp [h]
+  · have h' : ¬ (r < 0xD800 ∨ (0xDFFF < r ∧ r ≤ 0x10FFFF)) := fun c => h ((Utf8.isScalar_iff r).2 c)
+    have e : encodeRune r = [0xEF, 0xBF, 0xBD] := by
+      unfold encodeRune
+      have a1 : ¬ r < 0x80 := by omega
+      have a2 : ¬ r < 0x800 := by omega
+      simp [a1, a2, h]
+    rw [if_neg h, e]; decide
+
+/-- the selecting loops write exactly `c` code points (`b.WriteRune` `c` times): `c ≤ n` code points, `≤ 4c` bytes -/
+theorem walkFwd_runes (step : Nat) : ∀ (c : Nat) (s : Bytes),
+    ∃ rs : List Nat, rs.length = c ∧ Utf8.Scalars rs ∧ walkFwd step c s = encodeAll rs := by
+  intro c
+  induction c with
+  | zero => intro s; exact ⟨[], rfl, Utf8.Scalars.nil, rfl⟩
+  | succ c ih =>
+    intro s
+    obtain ⟨rs, h1, h2, h3⟩ := ih (dropRunes (step - 1) (s.drop (decodeRune s).2))
+    refine ⟨fixRune (decodeRune s).1 :: rs, by simp [h1], Utf8.Scalars.cons (fixRune_scalar _) h2, ?_⟩
+    rw [Utf8.walkFwd_succ, h3, Utf8.encodeAll_cons, encodeRune_fix]
+
+theorem walkBwd_runes (step : Nat) : ∀ (c : Nat) (s : Bytes),
+    ∃ rs : List Nat, rs.length = c ∧ Utf8.Scalars rs ∧ walkBwd step c s = encodeAll rs := by
+  intro c
+  induction c with
+  | zero => intro s; exact ⟨[], rfl, Utf8.Scalars.nil, rfl⟩
+  | succ c ih =>
+    intro s
+    obtain ⟨rs, h1, h2, h3⟩ :=
+      ih (dropLastRunes (step - 1) (s.take (s.length - (decodeLastRune s).2)))
+    refine ⟨fixRune (decodeLastRune s).1 :: rs, by simp [h1], Utf8.Scalars.cons (fixRune_scalar _) h2, ?_⟩
+    rw [Utf8.walkBwd_succ, h3, Utf8.encodeAll_cons, encodeRune_fix]
+
+theorem encodeAll_length_le (rs : List Nat) : (encodeAll rs).length ≤ 4 * rs.length := by
+  induction rs with
+  | nil => simp [encodeAll]
+  | cons r rs ih =>
+    rw [Utf8.encodeAll_cons, List.length_append, List.length_cons]
+    have := Utf8.encodeRune_length_le r; omega
+
+/-- `sliceStep` on a string (any bytes) of `n` code points: the result has at most `n` code points and `4 n` bytes,
+    ∀ start stop step : Int -/
+theorem sliceStep_string_size (s : Bytes) : ∀ (start stop step : Int) (r : Val),
+    sliceStep (.str s) start stop step = .ok r →
+      ∃ b, r = .str b ∧ runeCount b ≤ runeCount s ∧ b.length ≤ 4 * runeCount s := by
+  intro start stop step r h
+  simp only [sliceStep] at h
+  split at h
+  · cases h; exact ⟨[], rfl, by simp [runeCount_nil], by simp⟩
+  · rename_i a cnt hc
+    have hb := clampStep_bounds _ start stop step a cnt hc
+    split at h
+    · cases h
+      obtain ⟨rs, h1, h2, h3⟩ := walkFwd_runes step.toNat cnt.toNat (dropRunes a.toNat s)
+      refine ⟨_, rfl, ?_⟩
+      rw [h3, Utf8.runeCount_encodeAll rs h2]
+      have := encodeAll_length_le rs
+      omega
+    · cases h
+      obtain ⟨rs, h1, h2, h3⟩ := walkBwd_runes (-step).toNat cnt.toNat
+        (dropLastRunes ((runeCount s : Int) - 1 - a).toNat s)
+      refine ⟨_, rfl, ?_⟩
+      rw [h3, Utf8.runeCount_encodeAll rs h2]
+      have := encodeAll_length_le rs
+      omega
+
+example : sliceStep (.str [0x61, 0x62, 0x63]) 0 (2 ^ 63 - 1) (2 ^ 62) = .ok (.str [0x61]) := by rfl
+example : sliceStep (.str [0x61, 0x62, 0x63]) (2 ^ 63 - 1) (-(2 ^ 63)) (-(2 ^ 63)) = .ok (.str [0x63]) := by rfl
+
+/-! ### `split` / `splitCount`: the count is clamped by the separators present -/
+
+theorem isPrefixOf_length_le {p s : Bytes} (h : p.isPrefixOf s = true) : p.length ≤ s.length :=
+  (List.isPrefixOf_iff_prefix.1 h).length_le
+
+/-- the result has one more cell than separators consumed -/
+theorem splitAux_length : ∀ (fuel : Nat) (s p : Bytes) (n : Option Nat) (cur : Bytes),
+    (splitAux fuel s p n cur).length = splitTicks fuel s p n + 1 := by
+  intro fuel
+  induction fuel with
+  | zero => intro s p n cur; rfl
+  | succ fuel ih =>
+    intro s p n cur
+    cases s with
+    | nil => simp only [splitAux, splitTicks]; split <;> rfl
+    | cons b t =>
+      simp only [splitAux, splitTicks]
+      split
+      · rfl
+      · split
+        · rw [List.length_cons, ih]; omega
+        · rw [ih]
+
+/-- a count larger than the number of separators present changes nothing: `min count occurrences` -/
+theorem splitTicks_clamp : ∀ (fuel : Nat) (s p : Bytes) (k : Nat),
+    splitTicks fuel s p (some k) = min k (splitTicks fuel s p none) := by
+  intro fuel
+  induction fuel with
+  | zero => intro s p k; simp [splitTicks]
+  | succ fuel ih =>
+    intro s p k
+    simp only [splitTicks]
+    by_cases hk : k = 0
+    · subst hk; simp
+    · have e : ¬ (some k = some 0) := by simp [hk]
+      have e' : ¬ ((none : Option Nat) = some 0) := by simp
+      simp only [e, e', if_false, Option.map_some, Option.map_none]
+      split
+      · simp
+      · split
+        · rw [ih]; omega
+        · rw [ih]
+
+theorem splitTicks_le (p : Bytes) (hp : p ≠ []) : ∀ (fuel : Nat) (s : Bytes) (n : Option Nat),
+    splitTicks fuel s p n ≤ s.length := by
+  intro fuel
+  induction fuel with
+  | zero => intro s n; simp [splitTicks]
+  | succ fuel ih =>
+    intro s n
+    cases s with
+    | nil => simp only [splitTicks]; split <;> simp
+    | cons b t =>
+      simp only [splitTicks]
+      split
+      · omega
+      · split
+        · rename_i hpre
+          have h1 := isPrefixOf_length_le hpre
+          have h2 := length_pos_of_ne_nil hp
+          have := ih ((b :: t).drop p.length) (n.map (· - 1))
+          rw [List.length_drop] at this
+          omega
+        · have := ih t n
+          simp only [List.length_cons]; omega
+
+theorem occurrences_le (s p : Bytes) (hp : p ≠ []) : occurrences s p ≤ s.length :=
+  splitTicks_le p hp _ s none
+
+/-- `splitOn s p (some count)` has `min count occurrences + 1` pieces, whatever `count` -/
+theorem splitOn_length (s p : Bytes) (k : Nat) :
+    (splitOn s p (some k)).length = min k (occurrences s p) + 1 := by
+  unfold splitOn occurrences; rw [splitAux_length, splitTicks_clamp]
+
+theorem splitOn_length_none (s p : Bytes) : (splitOn s p none).length = occurrences s p + 1 := by
+  unfold splitOn occurrences; rw [splitAux_length]
+
+theorem runePiecesAux_length : ∀ (fuel : Nat) (s : Bytes), s.length ≤ fuel →
+    (runePiecesAux fuel s).length = runeCount s := by
+  intro fuel
+  induction fuel with
+  | zero =>
+    intro s h
+    have : s = [] := List.eq_nil_of_length_eq_zero (by omega)
+    subst this; rfl
+  | succ fuel ih =>
+    intro s h
+    by_cases hne : s = []
+    · subst hne; rfl
+    · have hp := decodeRune_pos s hne
+      have hl := length_pos_of_ne_nil hne
+      rw [Utf8.runePiecesAux_succ _ _ hne, List.length_cons, ih _ (by rw [List.length_drop]; omega),
+        runeCount_step s hne]
+      omega
+
+theorem runePieces_length (s : Bytes) : (runePieces s).length = runeCount s :=
+  runePiecesAux_length _ s (Nat.le_refl _)
+
+/-- the empty separator: `min (count + 1) (runeCount s)` pieces -/
+theorem splitRunes_length (s : Bytes) (k : Nat) :
+    (splitRunes s (some k)).length = min (k + 1) (runeCount s) := by
+  unfold splitRunes
+  simp only
+  rw [← runePieces_length s]
+  split
+  · omega
+  · simp [List.length_append, List.length_take]; omega
+
+theorem splitRunes_length_none (s : Bytes) : (splitRunes s none).length = runeCount s := by
+  unfold splitRunes; exact runePieces_length s
+
+theorem ok_bind {α β} (a : α) (f : α → Res β) : (Res.ok a >>= f) = f a := rfl
+theorem pure_ok {α} (a : α) : (pure a : Res α) = Res.ok a := rfl
+theorem intArg_i64 (c : Int) : intArg (.num (.int .i64 c)) = .ok c := rfl
+
+/-- `split(s, sep, count)`: ∀ count : Int the result has at most `|s| + 1` elements; with a non-empty separator
+    exactly `splitCells (occurrences s sep) count = min count occurrences + 1` -/
+theorem splitCount_size (s p : Bytes) : ∀ (count : Int) (r : Val),
+    splitCount (.str s) (.str p) (.num (.int .i64 count)) = .ok r →
+      ∃ ys, r = .arr .plain ys ∧ ys.length ≤ s.length + 1 ∧
+        (s ≠ [] → p ≠ [] → 0 < count → ys.length = splitCells (occurrences s p) count) := by
+  intro count r h
+  have hr := runeCount_le_length _ s (Nat.le_refl _)
+  simp only [splitCount, strArg, intArg_i64, ok_bind, pure_ok] at h
+  split at h
+  · cases h
+  · split at h
+    · cases h; exact ⟨_, rfl, by simp, by omega⟩
+    · split at h
+      · rename_i he
+        cases h
+        refine ⟨_, rfl, by simp, fun hs => ?_⟩
+        exact absurd (List.isEmpty_iff.1 he) hs
+      · split at h
+        · rename_i he
+          cases h
+          refine ⟨_, rfl, ?_, fun _ hp => absurd (List.isEmpty_iff.1 he) hp⟩
+          rw [List.length_map, splitRunes_length]; omega
+        · rename_i he
+          cases h
+          have hp : p ≠ [] := fun c => he (by rw [c]; rfl)
+          have ho := occurrences_le s p hp
+          refine ⟨_, rfl, ?_, fun _ _ _ => ?_⟩
+          · rw [List.length_map, splitOn_length]; omega
+          · unfold splitCells; rw [List.length_map, splitOn_length]
+
+theorem split_size (s p : Bytes) (r : Val) (h : split (.str s) (.str p) = .ok r) :
+    ∃ ys, r = .arr .plain ys ∧ ys.length ≤ s.length + 1 := by
+  have hr := runeCount_le_length _ s (Nat.le_refl _)
+  simp only [split, strArg, ok_bind, pure_ok] at h
+  split at h
+  · cases h; exact ⟨_, rfl, by simp⟩
+  · split at h
+    · cases h; refine ⟨_, rfl, ?_⟩
+      rw [List.length_map, splitRunes_length_none]; omega
+    · rename_i he
+      cases h
+      have hp : p ≠ [] := fun c => he (by rw [c]; rfl)
+      have ho := occurrences_le s p hp
+      refine ⟨_, rfl, ?_⟩
+      rw [List.length_map, splitOn_length_none]; omega
+
+/-- split('a,b,c', ',', 2^62) and split('ab', '', 2^63-1) (the two witnesses of finding F03) -/
+example : splitCount (.str [0x61, 0x2C, 0x62, 0x2C, 0x63]) (.str [0x2C]) (.num (.int .i64 (2 ^ 62)))
+    = .ok (.arr .plain [.str [0x61], .str [0x62], .str [0x63]]) := by rfl
+example : splitCount (.str [0x61, 0x62]) (.str []) (.num (.int .i64 (2 ^ 63 - 1)))
+    = .ok (.arr .plain [.str [0x61], .str [0x62]]) := by rfl
+example : splitCells 2 (2 ^ 62) = 3 := by decide
+example : splitCost 2 (2 ^ 63 - 1) = 6 := by decide
+
+theorem split_cost_bound (occ : Nat) : ∀ count : Int, splitCost occ count ≤ 2 * (occ + 1) := by
+  intro count; unfold splitCost splitCells; omega
+
+/-! ### `replace` / `replaceCount` -/
+
+theorem replaceTicks_clamp : ∀ (fuel : Nat) (s old : Bytes) (k : Nat),
+    replaceTicks fuel s old (some k) = min k (replaceTicks fuel s old none) := by
+  intro fuel
+  induction fuel with
+  | zero => intro s p k; simp [replaceTicks]
+  | succ fuel ih =>
+    intro s p k
+    simp only [replaceTicks]
+    by_cases hk : k = 0
+    · subst hk; simp
+    · have e : ¬ (some k = some 0) := by simp [hk]
+      have e' : ¬ ((none : Option Nat) = some 0) := by simp
+      simp only [e, e', if_false, Option.map_some, Option.map_none]
+      split
+      · simp
+      · split
+        · rw [ih]; omega
+        · rw [ih]
+
+theorem replaceTicks_le (old : Bytes) (hp : old ≠ []) : ∀ (fuel : Nat) (s : Bytes) (n : Option Nat),
+    replaceTicks fuel s old n ≤ s.length := by
+  intro fuel
+  induction fuel with
+  | zero => intro s n; simp [replaceTicks]
+  | succ fuel ih =>
+    intro s n
+    cases s with
+    | nil => simp only [replaceTicks]; split <;> simp
+    | cons b t =>
+      simp only [replaceTicks]
+      split
+      · omega
+      · split
+        · rename_i hpre
+          have h1 := isPrefixOf_length_le hpre
+          have h2 := length_pos_of_ne_nil hp
+          have := ih ((b :: t).drop old.length) (n.map (· - 1))
+          rw [List.length_drop] at this
+          omega
+        · have := ih t n
+          simp only [List.length_cons]; omega
+
+/-- the exact size of the result of `strings.Replace` for a non-empty `old`:
+    `|result| + k·|old| = |s| + k·|new|` with `k = replaceTicks` replacements -/
+theorem replaceAux_length (old new : Bytes) : ∀ (fuel : Nat) (s : Bytes) (n : Option Nat),
+    (replaceAux fuel s old new n).length + replaceTicks fuel s old n * old.length
+      = s.length + replaceTicks fuel s old n * new.length := by
+  intro fuel
+  induction fuel with
+  | zero => intro s n; simp [replaceAux, replaceTicks]
+  | succ fuel ih =>
+    intro s n
+    cases s with
+    | nil => simp only [replaceAux, replaceTicks]; split <;> simp
+    | cons b t =>
+      simp only [replaceAux, replaceTicks]
+      split
+      · simp
+      · split
+        · rename_i hpre
+          have h1 := isPrefixOf_length_le hpre
+          have := ih ((b :: t).drop old.length) (n.map (· - 1))
+          rw [List.length_drop] at this
+          simp only [List.length_append, Nat.add_mul, Nat.one_mul]
+          omega
+        · have := ih t n
+          simp only [List.length_cons]; omega
+
+def joinLen (ps : List Bytes) : Nat := (ps.foldr (· ++ ·) []).length
+
+theorem replaceEmptyAux_length (new : Bytes) : ∀ (ps : List Bytes) (n : Option Nat),
+    (replaceEmptyAux ps new n).length ≤ joinLen ps + (ps.length + 1) * new.length := by
+  intro ps
+  induction ps with
+  | nil =>
+    intro n; simp only [replaceEmptyAux, joinLen]
+    split <;> simp
+  | cons p ps ih =>
+    intro n
+    simp only [replaceEmptyAux, joinLen]
+    split
+    · simp only [List.foldr_cons]; omega
+    · have := ih (n.map (· - 1))
+      unfold joinLen at this
+      simp only [List.foldr_cons, List.length_append, List.length_cons, Nat.add_mul, Nat.one_mul] at this ⊢
+      omega
+
+theorem runePiecesAux_join : ∀ (fuel : Nat) (s : Bytes), s.length ≤ fuel →
+    (runePiecesAux fuel s).foldr (· ++ ·) [] = s := by
+  intro fuel
+  induction fuel with
+  | zero =>
+    intro s h
+    have : s = [] := List.eq_nil_of_length_eq_zero (by omega)
+    subst this; rfl
+  | succ fuel ih =>
+    intro s h
+    by_cases hne : s = []
+    · subst hne; rfl
+    · have hp := decodeRune_pos s hne
+      have hl := length_pos_of_ne_nil hne
+      rw [Utf8.runePiecesAux_succ _ _ hne, List.foldr_cons, ih _ (by rw [List.length_drop]; omega)]
+      exact List.take_append_drop _ _
+
+theorem runePieces_joinLen (s : Bytes) : joinLen (runePieces s) = s.length := by
+  unfold joinLen runePieces; rw [runePiecesAux_join _ s (Nat.le_refl _)]
+
+/-- `strings.Replace(s, old, new, n)`: ∀ n (absent, or any count) the result has at most `|s| + (|s|+1)·|new|` bytes -/
+theorem stringsReplace_length_le (s old new : Bytes) : ∀ n : Option Nat,
+    (stringsReplace s old new n).length ≤ s.length + (s.length + 1) * new.length := by
+  intro n
+  unfold stringsReplace
+  split
+  · have h1 := replaceEmptyAux_length new (runePieces s) n
+    rw [runePieces_joinLen, runePieces_length] at h1
+    have h2 := runeCount_le_length _ s (Nat.le_refl _)
+    have h3 : (runeCount s + 1) * new.length ≤ (s.length + 1) * new.length :=
+      Nat.mul_le_mul_right _ (by omega)
+    omega
+  · rename_i he
+    have hp : old ≠ [] := fun c => he (by rw [c]; rfl)
+    have h1 := replaceAux_length old new (s.length + 1) s n
+    have h2 := replaceTicks_le old hp (s.length + 1) s n
+    have h3 : replaceTicks (s.length + 1) s old n * new.length ≤ (s.length + 1) * new.length :=
+      Nat.mul_le_mul_right _ (by omega)
+    omega
+
+/-- the number of replacements is `min count occurrences` -/
+theorem replace_count_clamp (s old : Bytes) (k : Nat) :
+    replaceTicks (s.length + 1) s old (some k) = min k (replaceTicks (s.length + 1) s old none) :=
+  replaceTicks_clamp _ s old k
+
+theorem replaceCount_size (s old new : Bytes) : ∀ (count : Int) (r : Val),
+    replaceCount (.str s) (.str old) (.str new) (.num (.int .i64 count)) = .ok r →
+      ∃ b, r = .str b ∧ b.length ≤ s.length + (s.length + 1) * new.length := by
+  intro count r h
+  simp only [replaceCount, strArg, intArg_i64, ok_bind, pure_ok] at h
+  split at h
+  · cases h
+  · cases h; exact ⟨_, rfl, stringsReplace_length_le s old new _⟩
+
+example : replaceCount (.str [0x61, 0x62, 0x61]) (.str [0x61]) (.str [0x78, 0x79]) (.num (.int .i64 (2 ^ 63 - 1)))
+    = .ok (.str [0x78, 0x79, 0x62, 0x78, 0x79]) := by rfl
+example : replaceCost 2 (2 ^ 63 - 1) = 3 := by decide
+
+theorem replace_cost_bound (occ : Nat) : ∀ count : Int, replaceCost occ count ≤ occ + 1 := by
+  intro count; unfold replaceCost; omega
+
+/-! ### padding: the one place where the magnitude IS the size of the result -/
+
+theorem padString_length (p : Bytes) : ∀ k : Nat,
+    ((List.replicate k p).foldr (· ++ ·) []).length = k * p.length := by
+  intro k
+  induction k with
+  | zero => simp
+  | succ k ih => rw [List.replicate_succ, List.foldr_cons, List.length_append, ih, Nat.succ_mul]; omega
+
+theorem padString_encodeAll (c : Nat) : ∀ k : Nat,
+    (List.replicate k (encodeRune c)).foldr (· ++ ·) [] = encodeAll (List.replicate k c) := by
+  intro k
+  induction k with
+  | zero => rfl
+  | succ k ih => rw [List.replicate_succ, List.foldr_cons, ih, List.replicate_succ, Utf8.encodeAll_cons]
+
+/-- any bytes, ∀ w : Int: the result is the subject plus `max 0 (w - runeCount s)` copies of the pad string —
+    `padCost` iterations, and that many more code points in the result: here the integer argument legitimately is
+    the size of the result (the model refuses to materialise more than `padLimit` copies: `unmodelled`) -/
+theorem padWith_size (left : Bool) (s p : Bytes) : ∀ (w : Int) (r : Val),
+    padWith left s w p (.str s) = .ok r →
+      ∃ b, r = .str b ∧ b.length = s.length + padCost (runeCount s) w * p.length := by
+  intro w r h
+  unfold padWith at h
+  split at h
+  · cases h
+  · split at h
+    · cases h
+    · simp only at h
+      split at h
+      · rename_i hle
+        cases h
+        refine ⟨s, rfl, ?_⟩
+        have : padCost (runeCount s) w = 0 := by unfold padCost; omega
+        rw [this]; simp
+      · split at h
+        · cases h
+        · cases h
+          refine ⟨_, rfl, ?_⟩
+          unfold padCost
+          cases left <;> simp [padString_length] <;> omega
+
+/-- valid UTF-8: the result has exactly `max w (number of code points of s)` code points -/
+theorem padWith_codepoints (left : Bool) (cs : List Nat) (hcs : Utf8.Scalars cs) (c : Nat)
+    (hc : isScalar c = true) : ∀ (w : Int) (r : Val),
+    padWith left (encodeAll cs) w (encodeRune c) (.str (encodeAll cs)) = .ok r →
+      ∃ b, r = .str b ∧ (runeCount b : Int) = max w cs.length := by
+  intro w r h
+  have hrc := Utf8.runeCount_encodeAll cs hcs
+  unfold padWith at h
+  split at h
+  · cases h
+  · split at h
+    · cases h
+    · simp only at h
+      rw [hrc] at h
+      split at h
+      · cases h
+        refine ⟨_, rfl, ?_⟩
+        rw [hrc]; omega
+      · split at h
+        · cases h
+        · cases h
+          refine ⟨_, rfl, ?_⟩
+          rw [padString_encodeAll]
+          cases left
+          · simp only [Bool.false_eq_true, if_false]
+            rw [← Utf8.encodeAll_append, Utf8.runeCount_encodeAll _ (hcs.append (Utf8.Scalars.replicate hc _)),
+              List.length_append, List.length_replicate]
+            omega
+          · simp only [if_true]
+            rw [← Utf8.encodeAll_append, Utf8.runeCount_encodeAll _ ((Utf8.Scalars.replicate hc _).append hcs),
+              List.length_append, List.length_replicate]
+            omega
+
+/-- on invalid UTF-8 the code point count of the result can be smaller (a truncated lead byte as the pad joins
+    with continuation bytes of the subject), which is why `padWith_codepoints` asks for valid UTF-8; the byte
+    count of `padWith_size` is exact regardless -/
+example : runeCount [0xE0] = 1 ∧ runeCount [0xA0, 0x80] = 2 ∧
+    padWith true [0xA0, 0x80] 3 [0xE0] (.str [0xA0, 0x80]) = .ok (.str [0xE0, 0xA0, 0x80]) ∧
+    runeCount [0xE0, 0xA0, 0x80] = 1 := ⟨by decide, by decide, by rfl, by decide⟩
+
+example : padWith true [0x61] 5 [0x2E] (.str [0x61]) = .ok (.str [0x2E, 0x2E, 0x2E, 0x2E, 0x61]) := by rfl
+example : padCost 1 5 = 4 := by decide
+example : padCost 1 (-(2 ^ 63)) = 0 := by decide
+/-- a width of 2^62 really asks for 2^62 - 1 pad characters: the result size, not a hidden loop -/
+example : padCost 1 (2 ^ 62) = 2 ^ 62 - 1 := by decide
+
+/-- item 4, collected: ∀ integers, the size of every result is bounded by the size of the subject (and of `new`) -/
+theorem result_size_bounds :
+    (∀ (t : ATag) (xs : List Val) (start stop : Int) (r : Val), slice (.arr t xs) start stop = .ok r →
+        ∃ ys, r = .arr .plain ys ∧ ys.length ≤ xs.length) ∧
+    (∀ (t : ATag) (xs : List Val) (start stop step : Int) (r : Val), sliceStep (.arr t xs) start stop step = .ok r →
+        ∃ ys, r = .arr .plain ys ∧ ys.length ≤ xs.length) ∧
+    (∀ (s : Bytes) (start stop : Int) (r : Val), slice (.str s) start stop = .ok r →
+        ∃ b, r = .str b ∧ b.length ≤ s.length ∧ runeCount b ≤ s.length) ∧
+    (∀ (s : Bytes) (start stop step : Int) (r : Val), sliceStep (.str s) start stop step = .ok r →
+        ∃ b, r = .str b ∧ runeCount b ≤ runeCount s ∧ b.length ≤ 4 * runeCount s) ∧
+    (∀ (s p : Bytes) (r : Val), split (.str s) (.str p) = .ok r →
+        ∃ ys, r = .arr .plain ys ∧ ys.length ≤ s.length + 1) ∧
+    (∀ (s p : Bytes) (count : Int) (r : Val), splitCount (.str s) (.str p) (.num (.int .i64 count)) = .ok r →
+        ∃ ys, r = .arr .plain ys ∧ ys.length ≤ s.length + 1 ∧
+          (s ≠ [] → p ≠ [] → 0 < count → ys.length = splitCells (occurrences s p) count)) ∧
+    (∀ (s old new : Bytes) (count : Int) (r : Val),
+        replaceCount (.str s) (.str old) (.str new) (.num (.int .i64 count)) = .ok r →
+        ∃ b, r = .str b ∧ b.length ≤ s.length + (s.length + 1) * new.length) ∧
+    (∀ (left : Bool) (s p : Bytes) (w : Int) (r : Val), padWith left s w p (.str s) = .ok r →
+        ∃ b, r = .str b ∧ b.length = s.length + padCost (runeCount s) w * p.length) :=
+  ⟨slice_array_size, sliceStep_array_size, slice_string_size, sliceStep_string_size, split_size,
+   splitCount_size, replaceCount_size, padWith_size⟩
+
+/-! ## 5. `index` inspects one element -/
+
+/-- ∀ i : Int: the result is `null`, or `nondet` (map-ordered array), or the element at `i` resp. `n + i`; the
+    magnitude of `i` only enters two comparisons -/
+theorem index_const (t : ATag) (xs : List Val) : ∀ i : Int,
+    index (.arr t xs) i = .ok .null ∨ index (.arr t xs) i = .nondet ∨
+    (0 ≤ i ∧ i < xs.length ∧ index (.arr t xs) i = .ok (xs.getD i.toNat .null)) ∨
+    (i < 0 ∧ 0 ≤ i + xs.length ∧ index (.arr t xs) i = .ok (xs.getD (i + xs.length).toNat .null)) := by
+  intro i
+  by_cases h1 : i < 0
+  · have e : index (.arr t xs) i =
+        (if i + (xs.length : Int) < 0 ∨ i + (xs.length : Int) ≥ xs.length then .ok .null
+         else if enum2 t xs then .nondet else .ok (xs.getD (i + (xs.length : Int)).toNat .null)) := by
+      simp only [index, h1, if_true]
+    rw [e]
+    split
+    · exact Or.inl rfl
+    · split
+      · exact Or.inr (Or.inl rfl)
+      · exact Or.inr (Or.inr (Or.inr ⟨h1, by omega, rfl⟩))
+  · have e : index (.arr t xs) i =
+        (if i < 0 ∨ i ≥ xs.length then .ok .null
+         else if enum2 t xs then .nondet else .ok (xs.getD i.toNat .null)) := by
+      simp only [index, h1, if_false]
+    rw [e]
+    split
+    · exact Or.inl rfl
+    · split
+      · exact Or.inr (Or.inl rfl)
+      · exact Or.inr (Or.inr (Or.inl ⟨by omega, by omega, rfl⟩))
+
+theorem index_far (t : ATag) (xs : List Val) (i : Int) (h : i ≥ xs.length ∨ i < -(xs.length : Int)) :
+    index (.arr t xs) i = .ok .null := by
+  simp only [index]
+  split
+  · rw [if_pos (by omega)]
+  · rw [if_pos (by omega)]
+
+theorem index_cost_const : ∀ n i : Int, indexCost n i = 1 := fun _ _ => rfl
+
+example : index (.arr .plain [.null, .bool true]) (2 ^ 63 - 1) = .ok .null := index_far _ _ _ (by decide)
+example : index (.arr .plain [.null, .bool true]) (-(2 ^ 63)) = .ok .null := index_far _ _ _ (by decide)
+example : index (.arr .plain [.null, .bool true]) (-1) = .ok (.bool true) := by rfl
+
+/-! ## 6. Integer literals: out of range is an error, never a big number -/
+
+/-- the value a digit string denotes (Horner) -/
+def digitsVal (d : Bytes) : Nat := d.foldl (fun (acc : Nat) (b : Nat) => acc * 10 + (b - 0x30)) 0
+
+/-- whatever the bytes: a parsed literal is a 64-bit value -/
+theorem parseInt64_in_range (s : Bytes) (v : Int) (h : parseInt64 s = some v) : MinInt ≤ v ∧ v ≤ MaxInt := by
+  unfold parseInt64 at h
+  unfold MinInt MaxInt
+  split at h
+  rename_i neg d _
+  split at h
+  · cases h
+  · split at h
+    · simp only at h
+      split at h
+      · split at h
+        · cases h
+        · cases h; omega
+      · split at h
+        · cases h
+        · cases h; omega
+    · cases h
+
+/-- a non-empty digit string, optionally signed: `some` of its value inside `[-2^63, 2^63 - 1]`, `none` outside -/
+theorem parseInt64_range (d : Bytes) (hne : d ≠ []) (hd : d.all Dec.isDigit = true) :
+    parseInt64 d = (if (digitsVal d : Int) ≤ MaxInt then some (digitsVal d : Int) else none) ∧
+    parseInt64 (0x2B :: d) = (if (digitsVal d : Int) ≤ MaxInt then some (digitsVal d : Int) else none) ∧
+    parseInt64 (0x2D :: d) = (if MinInt ≤ -(digitsVal d : Int) then some (-(digitsVal d : Int)) else none) := by
+  have he : d.isEmpty = false := by cases d with
+    | nil => exact absurd rfl hne
+    | cons b bs => rfl
+  have key : ∀ (neg : Bool), (if d.isEmpty then none
+      else if d.all Dec.isDigit then
+        let v : Nat := d.foldl (fun (acc : Nat) (b : Nat) => acc * 10 + (b - 0x30)) 0
+        if neg then (if v > 2 ^ 63 then none else some (-(v : Int)))
+        else (if v > 2 ^ 63 - 1 then none else some (v : Int))
+      else none) =
+      (if neg then (if MinInt ≤ -(digitsVal d : Int) then some (-(digitsVal d : Int)) else none)
+       else (if (digitsVal d : Int) ≤ MaxInt then some (digitsVal d : Int) else none)) := by
+    intro neg
+    simp only [he, hd, if_true, Bool.false_eq_true, if_false]
+    unfold MinInt MaxInt digitsVal
+    cases neg
+    · simp only [Bool.false_eq_true, if_false]
+      split <;> split <;> first | rfl | omega
+    · simp only [if_true]
+      split <;> split <;> first | rfl | omega
+  refine ⟨?_, ?_, ?_⟩
+  · cases d with
+    | nil => exact absurd rfl hne
+    | cons b bs =>
+      have hb : Dec.isDigit b = true := by
+        simp only [List.all_cons, Bool.and_eq_true] at hd; exact hd.1
+      have hb' : 0x30 ≤ b ∧ b ≤ 0x39 := by
+        unfold Dec.isDigit at hb; simpa using hb
+      have h1 : b ≠ 0x2B := by omega
+      have h2 : b ≠ 0x2D := by omega
+      have := key false
+      simp only [Bool.false_eq_true, if_false] at this
+      rw [← this]
+      unfold parseInt64
+      split
+      rename_i heq
+      split at heq
+      · rename_i e; injection e with e _; exact absurd e h1
+      · rename_i e; injection e with e _; exact absurd e h2
+      · cases heq
+        simp only [Bool.false_eq_true, if_false]
+  · have := key false
+    simp only [Bool.false_eq_true, if_false] at this
+    rw [← this]; rfl
+  · have := key true
+    simp only [if_true] at this
+    rw [← this]; rfl
+
+/-- 2^63 - 1 and -2^63 parse; 2^63 and -2^63 - 1 are errors (`invalidIndex` in `indexP`), as is any longer literal -/
+example : parseInt64 [0x39, 0x32, 0x32, 0x33, 0x33, 0x37, 0x32, 0x30, 0x33, 0x36, 0x38, 0x35, 0x34, 0x37, 0x37, 0x35,
+    0x38, 0x30, 0x37] = some (2 ^ 63 - 1) := by decide
+example : parseInt64 [0x39, 0x32, 0x32, 0x33, 0x33, 0x37, 0x32, 0x30, 0x33, 0x36, 0x38, 0x35, 0x34, 0x37, 0x37, 0x35,
+    0x38, 0x30, 0x38] = none := by decide
+example : parseInt64 [0x2D, 0x39, 0x32, 0x32, 0x33, 0x33, 0x37, 0x32, 0x30, 0x33, 0x36, 0x38, 0x35, 0x34, 0x37, 0x37,
+    0x35, 0x38, 0x30, 0x38] = some (-(2 ^ 63)) := by decide
+example : parseInt64 [0x2D, 0x39, 0x32, 0x32, 0x33, 0x33, 0x37, 0x32, 0x30, 0x33, 0x36, 0x38, 0x35, 0x34, 0x37, 0x37,
+    0x35, 0x38, 0x30, 0x39] = none := by decide
+
+/-- `indexP` (`parser.index`) converts the literal under the cursor with `parseInt64`; an out-of-range literal is the
+    syntax error `invalidIndex` before any slice node is built -/
+theorem indexP_bad_literal (child : Option INode) (s : PState) (h1 : s.curr.type = .integerLiteral)
+    (h2 : parseInt64 s.curr.value = none) : Parser.indexP child s = .error .invalidIndex := by
+  unfold Parser.indexP
+  simp only [Parser.currType, Parser.currValue, bind, StateT.bind, get, getThe, MonadStateOf.get, StateT.get, pure,
+    StateT.pure, Except.pure, Except.bind, h1, h2, Parser.fail, beq_self_eq_true, if_true]
+
+/-- `[9223372036854775808]` -/
+example : Parser.indexP none ⟨⟨.integerLiteral, [0x39, 0x32, 0x32, 0x33, 0x33, 0x37, 0x32, 0x30, 0x33, 0x36, 0x38, 0x35,
+    0x34, 0x37, 0x37, 0x35, 0x38, 0x30, 0x38]⟩, ⟨.closeSqBrace, [0x5D]⟩, [], none⟩ = .error .invalidIndex :=
+  indexP_bad_literal _ _ rfl (by decide)
+
+end Jmes.C09
